@@ -378,6 +378,9 @@ fn eval_axis_node_test(
         },
     };
 
+    // The document type declaration is not a node of the XPath data model.
+    nodes.retain(|v| v.node_type() != dom::NodeType::DocumentType);
+
     let mut tested = vec![];
     for node in nodes {
         if eval_node_test(test, is_principal_node_type(axis, &node), node.clone(), context)? {
